@@ -477,7 +477,7 @@ int main(int argc, char **argv)
 	if (!ok) { fprintf(stderr, "unknown family %s\n", argv[1]); return 2; }
 	printf("STAT evals=%ld distinct=%ld nontrivial=%ld duplicates=%ld coder_runs=%ld words_in_batches=%ld public_runs=%ld syslib_runs=%ld\n",
 		n_evals, n_distinct, n_nontrivial, n_dups, n_runs, n_words, n_pub, n_sys);
-	if (have_sys && shard == 0) printf("NOTE system liblzma %s used as third opinion\n", SYS.version());
+	if (have_sys && shard == 0 && !strcmp(cur_family, "align")) printf("NOTE system liblzma %s used as third opinion\n", SYS.version());
 	h_done();
 	return 0;
 }
